@@ -498,11 +498,24 @@ def malformed_stream(ctx, drv, work, variant, rng, n):
 # ------------------------------------------------------------------------------------------
 # upload
 # ------------------------------------------------------------------------------------------
-def run_upload(binary, plan, timeout, interval, lat, retry):
-    """Drive the real Hpm.upload_binary against the reference device.  Returns (tag, now, device)."""
+def run_upload(binary, plan, timeout, interval, lat, retry, prior=()):
+    """Drive the real Hpm.upload_binary against the reference device.  Returns (tag, now, device).
+    `prior`: (binary hex, plan string) of uploads made BEFORE on the same Ipmi object (each against a device of
+    its own); only the last upload is observed - it must not depend on what the object did earlier."""
     clock = dev18.VirtualClock()
     dev = dev18.HpmDevice(plan, clock, lat)
     ipmi = dev18.make_ipmi(dev)
+    if prior:
+        for pbin, pplan in prior:
+            pclock = dev18.VirtualClock()
+            ipmi.interface.device = dev18.HpmDevice(parse_plan(pplan), pclock, lat)
+            with dev18.virtual_time(pclock):
+                try:
+                    ipmi.upload_binary(b'' if pbin == '-' else bytes.fromhex(pbin), timeout=timeout, interval=interval,
+                                       retry=retry)
+                except Exception:  # noqa
+                    pass
+        ipmi.interface.device = dev
     with dev18.virtual_time(clock):
         try:
             r = ipmi.upload_binary(binary, timeout=timeout, interval=interval, retry=retry)
@@ -608,11 +621,14 @@ UPLOAD_SIZES = [0, 1, 21, 22, 23, 43, 44, 45, 255 * 22 - 1, 255 * 22, 255 * 22 +
 TIMINGS = [(20, 1, 0), (20, 1, 0), (5, 2, 1), (1, 1, 0), (3, 1, 2), (7, 3, 0)]
 
 
-def check_upload(ctx, drv, bs, binary, plan, timing, retry, label, judge=True, sample=False):
+def check_upload(ctx, drv, bs, binary, plan, timing, retry, label, judge=True, sample=False, prior=()):
     timeout, interval, lat = timing
     case = {'kind': 'upload', 'label': label, 'binary': _hx(binary), 'plan': dev18.plan_str(plan),
             'timeout': timeout, 'interval': interval, 'lat': lat, 'retry': retry}
-    tag, now, dev = run_upload(binary, plan, timeout, interval, lat, retry)
+    if prior:
+        case['prior'] = [[a, b] for a, b in prior]
+        ctx.count('upload:after-%d-earlier-uploads-on-the-same-object' % len(prior))
+    tag, now, dev = run_upload(binary, plan, timeout, interval, lat, retry, prior)
     toks = dev18.trace_tokens(dev.trace)
     nb = sum(1 for ev in dev.trace if ev[0] == 'B')
     ctx.case(('upload', binary, case['plan'], timing, retry), nontrivial=nb > 0)
@@ -680,6 +696,16 @@ def upload_streams(ctx, drv, rng, scale):
     check_upload(ctx, drv, bs, binary, [('o',)] * 255 + [('p', 2), ('e', 0xC3)], (20, 1, 0), 3, 'error-at-wrap')
     check_upload(ctx, drv, bs, binary[:100], [('p', 100)], (20, 1, 0), 3, 'poll-time-out')
     check_upload(ctx, drv, bs, binary[:100], [('p', 2)], (0, 1, 0), 3, 'timeout-zero', judge=False)
+    # the same Ipmi object used for several uploads in a row (a finished one, an empty one, an aborted one before):
+    # every upload numbers its blocks from zero and sends exactly its own binary
+    for prior in ([(_hx(_rb(rng, 100)), '-')], [('-', '-'), (_hx(_rb(rng, 45)), '-')],
+                  [(_hx(_rb(rng, 200)), dev18.plan_str([('o',), ('o',), ('e', 0xC1)]))],
+                  [(_hx(_rb(rng, 257 * 22)), '-')], [(_hx(_rb(rng, 30)), dev18.plan_str([('p', 1)]))]):
+        for size in (22, 0, 23 * 22 + 1):
+            binary = _rb(rng, size)
+            nblocks = (size + bs - 1) // bs if bs > 0 else 0
+            check_upload(ctx, drv, bs, binary, gen_plan(rng, nblocks, rng.choice(['none', 'inprog'])), (20, 1, 0), 3,
+                         'after-earlier-uploads', prior=prior)
     for _ in range(int(40 * scale)):
         r = rng.random()
         size = rng.randrange(0, 200) if r < 0.45 else rng.randrange(0, 6001)
@@ -951,7 +977,11 @@ def replay(ctx, v):
     elif case.get('kind') == 'upload':
         binary = b'' if case['binary'] == '-' else bytes.fromhex(case['binary'])
         plan = parse_plan(case['plan'])
-        tag, now, dev = run_upload(binary, plan, case['timeout'], case['interval'], case['lat'], case['retry'])
+        prior = [tuple(x) for x in case.get('prior', [])]
+        tag, now, dev = run_upload(binary, plan, case['timeout'], case['interval'], case['lat'], case['retry'], prior)
+        if prior:
+            print('after %d earlier upload(s) on the same Ipmi object: %s' % (
+                len(prior), ', '.join('%d bytes' % (0 if a == '-' else len(a) // 2) for a, _ in prior)))
         print('upload of %d bytes, plan %s -> %s' % (len(binary), case['plan'][:80], tag))
         print('  requests: %s' % ' '.join(dev18.trace_tokens(dev.trace))[:400])
         judge_upload(c2, case, binary, plan, case['timeout'], tag, dev)
